@@ -480,7 +480,6 @@ func (h *svcHarness) verifyLog(sp *mSpec) {
 	}
 	prevSeen := sp.logSeen
 	sp.logSeen = len(lines)
-	_ = prevSeen
 	obs := make([]got, len(lines))
 	for i, ad := range lines {
 		obs[i] = got{ID: ad.ID, Msg: ad.Message, Level: int(ad.Level), Prev: int(ad.PreviousLevel), Time: ad.Time.UnixNano(), Dur: ad.Duration}
